@@ -112,6 +112,8 @@ pub fn boundary() -> Vec<i64> {
     v.extend([1i64 << 31, -(1i64 << 31), 1i64 << 62, -(1i64 << 62), i64::MAX - 1, i64::MAX, i64::MIN, i64::MIN + 1]);
     // beyond the property's list: the multiplication boundary and the 53-bit precision boundary
     v.extend([3037000499, 3037000500, -3037000500, (1i64 << 53) + 1, -(1i64 << 53) - 1, (1i64 << 31) - 1]);
+    // the 32-bit boundaries (both factors fit 32 bits, the product does not fit 63)
+    v.extend([(1i64 << 32) - 1, 1i64 << 32, 4_000_000_000, -((1i64 << 32) - 1)]);
     v
 }
 
